@@ -105,8 +105,9 @@ func dropNilEntries[V any](m map[string]*V) {
 }
 
 func yamlNodeIsTrue(n *yaml.Node) bool {
+	// Only a boolean node counts like in the workflow parser. `yes` or `on` are strings in workflow files
 	var b bool
-	if n.Kind != yaml.ScalarNode || n.Decode(&b) != nil {
+	if n.Kind != yaml.ScalarNode || n.ShortTag() != "!!bool" || n.Decode(&b) != nil {
 		return false
 	}
 	return b
